@@ -1,6 +1,7 @@
 (* Proofs/PositionsSrc.v — the general theorems instantiated with the parameters read from today's Go source, the
-   side conditions on those parameters, and the refutations (conditional on the parameter still having the
-   defective value; witnesses are checked by computation). *)
+   side conditions on those parameters, the full statements (as predicates of a parameter record and of the uniseg
+   collaborator), their proofs for EVERY repaired parameter record, and their refutations for today's record
+   (conditional on the parameter still having the defective value; witnesses are checked by computation). *)
 From Coq Require Import Lia ZifyNat ZifyBool.
 From Verif Require Import Base.Bytes Model.Positions Src.SrcPositions Proofs.PositionsBase Proofs.PositionsProofs.
 Local Open Scope Z_scope.
@@ -26,35 +27,78 @@ Lemma src_line_ok : forall nl line, line_ok src_params nl line.
 Proof. exact (line_table_fixed_ok src_params src_line_table_fixed). Qed.
 
 (* ---- instances ---- *)
-Lemma src_pos_consistent : forall text line col b,
+Lemma src_pos_consistent : forall u text line col b,
   true_byte text line col = Some b ->
-  zero_width_before src_params text line col = false ->
-  pos src_params (new_position_index text) line col = Some {| p_line := line; p_col := col; p_byte := b |}.
+  irregular_before src_params u text line col = false ->
+  pos src_params u (new_position_index text) line col = Some {| p_line := line; p_col := col; p_byte := b |}.
 Proof. intros. apply pos_true_byte; auto using src_line_ok. Qed.
 
-Lemma src_pos_decomp : forall text pre l post cs1 cs2,
+Lemma src_pos_decomp : forall u text pre l post cs1 cs2,
   lines_of text = pre ++ l :: post -> chars_of l = cs1 ++ cs2 ->
-  (pp_runes src_params = true \/ is_ascii_str l = true \/ forallb w1 cs1 = true) ->
-  pos src_params (new_position_index text) (Z.of_nat (length pre) + 1) (Z.of_nat (length cs1) + 1)
+  (pp_runes src_params = true \/ is_ascii_str l = true \/ w1_prefix (u_seg u l) cs1 = true) ->
+  pos src_params u (new_position_index text) (Z.of_nat (length pre) + 1) (Z.of_nat (length cs1) + 1)
   = Some {| p_line := Z.of_nat (length pre) + 1; p_col := Z.of_nat (length cs1) + 1;
             p_byte := lines_len pre + slenZ (concat_str cs1) |}.
 Proof. intros. eapply pos_decomp; eauto using src_line_ok. Qed.
 
-Lemma src_range_in_text : forall text n tb te,
+Lemma src_range_in_text : forall u text n tb te,
   true_byte text (yn_line n) (yn_col n) = Some tb ->
   true_byte text (fst (end_lc src_params n)) (snd (end_lc src_params n)) = Some te ->
-  zero_width_before src_params text (yn_line n) (yn_col n) = false ->
-  zero_width_before src_params text (fst (end_lc src_params n)) (snd (end_lc src_params n)) = false ->
+  irregular_before src_params u text (yn_line n) (yn_col n) = false ->
+  irregular_before src_params u text (fst (end_lc src_params n)) (snd (end_lc src_params n)) = false ->
   lex_le (yn_line n) (yn_col n) (fst (end_lc src_params n)) (snd (end_lc src_params n)) ->
-  node_range src_params (new_position_index text) n
+  node_range src_params u (new_position_index text) n
   = Some ({| p_line := yn_line n; p_col := yn_col n; p_byte := tb |},
           {| p_line := fst (end_lc src_params n); p_col := snd (end_lc src_params n); p_byte := te |})
   /\ 0 <= tb /\ tb <= te /\ te <= slenZ text.
 Proof.
-  intros text n tb te Hb He Hzb Hze Hle.
-  pose proof (range_in_text src_params text n tb te) as R. cbv zeta in R.
+  intros u text n tb te Hb He Hzb Hze Hle.
+  pose proof (range_in_text src_params u text n tb te) as R. cbv zeta in R.
   destruct (end_lc src_params n) as [el ec]. cbn [fst snd] in *.
   apply R; auto using src_line_ok.
+Qed.
+
+(* [end_missing] is exactly the hypothesis of src_range_in_text on the end *)
+Lemma end_missing_false : forall p text n, end_missing p text n = false ->
+  exists te, true_byte text (fst (end_lc p n)) (snd (end_lc p n)) = Some te.
+Proof.
+  intros p text n H. unfold end_missing in H.
+  destruct (true_byte text (fst (end_lc p n)) (snd (end_lc p n))) as [te|]; [now exists te | discriminate H].
+Qed.
+
+Lemma src_range_in_text_class : forall u text n tb,
+  true_byte text (yn_line n) (yn_col n) = Some tb ->
+  end_missing src_params text n = false ->
+  irregular_before src_params u text (yn_line n) (yn_col n) = false ->
+  irregular_before src_params u text (fst (end_lc src_params n)) (snd (end_lc src_params n)) = false ->
+  lex_le (yn_line n) (yn_col n) (fst (end_lc src_params n)) (snd (end_lc src_params n)) ->
+  exists te,
+    true_byte text (fst (end_lc src_params n)) (snd (end_lc src_params n)) = Some te
+    /\ node_range src_params u (new_position_index text) n
+       = Some ({| p_line := yn_line n; p_col := yn_col n; p_byte := tb |},
+               {| p_line := fst (end_lc src_params n); p_col := snd (end_lc src_params n); p_byte := te |})
+    /\ 0 <= tb /\ tb <= te /\ te <= slenZ text.
+Proof.
+  intros u text n tb Hb Hm Hzb Hze Hle. destruct (end_missing_false _ _ _ Hm) as [te He].
+  exists te. split; [exact He|]. now apply src_range_in_text.
+Qed.
+
+(* every node, whether or not its end exists *)
+Lemma src_range_bytes_ordered : forall u text n tb,
+  true_byte text (yn_line n) (yn_col n) = Some tb ->
+  irregular_before src_params u text (yn_line n) (yn_col n) = false ->
+  lex_le (yn_line n) (yn_col n) (fst (end_lc src_params n)) (snd (end_lc src_params n)) ->
+  1 <= snd (end_lc src_params n) ->
+  fst (end_lc src_params n) <= Z.of_nat (length (lines_of text)) ->
+  exists e, node_range src_params u (new_position_index text) n
+            = Some ({| p_line := yn_line n; p_col := yn_col n; p_byte := tb |}, e)
+    /\ p_line e = fst (end_lc src_params n) /\ p_col e = snd (end_lc src_params n)
+    /\ 0 <= tb /\ tb <= p_byte e.
+Proof.
+  intros u text n tb Hb Hz Hle Hec Hel.
+  destruct (range_bytes_ordered src_params u text n tb Hb (src_line_ok _) Hz Hle Hec Hel)
+    as (e & Hn & H1 & H2 & H3 & H4 & _).
+  exists e. repeat split; assumption.
 Qed.
 
 Lemma src_node_order : forall n, ordered n ->
@@ -63,28 +107,28 @@ Proof.
   intros n H. pose proof (node_lex src_params n H) as L. now destruct (end_lc src_params n).
 Qed.
 
-Lemma src_plain_scalar_slice : forall text pre a value z post tag anch,
+Lemma src_plain_scalar_slice : forall u text pre a value z post tag,
   lines_of text = pre ++ (a +++ value +++ z) :: post ->
   complete a = true -> complete value = true ->
   (pp_end_chars src_params = true \/ is_ascii_str value = true) ->
   (pp_runes src_params = true \/ is_ascii_str (a +++ value +++ z) = true
-   \/ forallb w1 (chars_of (a +++ value)) = true) ->
+   \/ w1_prefix (u_seg u (a +++ value +++ z)) (chars_of (a +++ value)) = true) ->
   let line := Z.of_nat (length pre) + 1 in
   let col := nchars a + 1 in
   let b := lines_len pre + slenZ a in
   let e := b + slenZ value in
-  node_range src_params (new_position_index text) (YNode 8 0 tag value line col anch [])
+  node_range src_params u (new_position_index text) (YNode 8 0 tag value line col false [])
   = Some ({| p_line := line; p_col := col; p_byte := b |},
           {| p_line := line; p_col := col + nchars value; p_byte := e |})
   /\ substr b e text = value
   /\ 0 <= b /\ b <= e /\ e <= slenZ text
   /\ true_byte text line col = Some b /\ true_byte text line (col + nchars value) = Some e.
 Proof.
-  intros text pre a value z post tag anch Hl Ha Hv Hu Hw.
-  apply (plain_scalar_slice src_params text pre a value z post tag anch Hl Ha Hv Hu); [apply src_line_ok | exact Hw].
+  intros u text pre a value z post tag Hl Ha Hv Hu Hw.
+  apply (plain_scalar_slice src_params u text pre a value z post tag Hl Ha Hv Hu); [apply src_line_ok | exact Hw].
 Qed.
 
-Lemma src_scalar_subrange : forall text pre a v1 v2 v3 z post tag anch style,
+Lemma src_scalar_subrange : forall u text pre a v1 v2 v3 z post tag style,
   let value := v1 +++ v2 +++ v3 in
   lines_of text = pre ++ (a +++ value +++ z) :: post ->
   complete a = true -> complete v1 = true -> complete v2 = true -> complete v3 = true ->
@@ -93,11 +137,12 @@ Lemma src_scalar_subrange : forall text pre a v1 v2 v3 z post tag anch style,
   let line := Z.of_nat (length pre) + 1 in
   let col := nchars a + 1 in
   (pp_runes src_params = true \/ is_ascii_str (a +++ value +++ z) = true
-   \/ forallb w1 (chars_of (a +++ value)) = true) ->
-  (pp_sr_runes src_params = true \/ forallb w1 (chars_of (v1 +++ v2)) = true) ->
-  forall rng, node_range src_params (new_position_index text) (YNode 8 0 tag value line col anch []) = Some rng ->
+   \/ w1_prefix (u_seg u (a +++ value +++ z)) (chars_of (a +++ value)) = true) ->
+  (pp_sr_runes src_params = true
+   \/ (u_width u v1 = nchars v1 /\ u_width u (v1 +++ v2) = nchars (v1 +++ v2))) ->
+  forall rng, node_range src_params u (new_position_index text) (YNode 8 0 tag value line col false []) = Some rng ->
   exists b' e',
-    scalar_range src_params (YNode 8 style tag value line col anch []) rng
+    scalar_range src_params u (YNode 8 style tag value line col false []) rng
                  (String.length v1) (String.length v1 + String.length v2) = Some (b', e')
     /\ p_line b' = line /\ p_line e' = line
     /\ true_byte text line (p_col b') = Some (p_byte b')
@@ -105,136 +150,319 @@ Lemma src_scalar_subrange : forall text pre a v1 v2 v3 z post tag anch style,
     /\ substr (p_byte b') (p_byte e') text = v2
     /\ p_byte b' <= p_byte e' <= slenZ text.
 Proof.
-  intros text pre a v1 v2 v3 z post tag anch style value Hl Ha H1 H2 H3 Hu Hst line col Hw Hsr rng Hr.
-  apply (scalar_subrange src_params text pre a v1 v2 v3 z post tag anch style Hl Ha H1 H2 H3 Hu Hst
+  intros u text pre a v1 v2 v3 z post tag style value Hl Ha H1 H2 H3 Hu Hst line col Hw Hsr rng Hr.
+  apply (scalar_subrange src_params u text pre a v1 v2 v3 z post tag style Hl Ha H1 H2 H3 Hu Hst
                          (src_line_ok _ _) Hw Hsr rng Hr).
 Qed.
 
-(* ---- refutations: the full statements fail while the source has the defective value ---- *)
+(* ====================================================================================================
+   The full statements, as predicates of the parameter record and of the library. *)
+
+Definition pos_consistent_full (p : pos_params) (u : uniseg) : Prop := forall text line col b,
+  true_byte text line col = Some b ->
+  pos p u (new_position_index text) line col = Some {| p_line := line; p_col := col; p_byte := b |}.
+
+(* the range of every node whose begin exists, whose end line is a line of the text and whose end is not before its
+   begin in (line, column) order: reported, begin at the right byte, begin <= end, end inside the text.  (That the
+   end COLUMN exists is not part of it: no value of the parameters gives that, see strict_column_refuted.) *)
+Definition range_in_text_full (p : pos_params) (u : uniseg) : Prop := forall text n tb,
+  true_byte text (yn_line n) (yn_col n) = Some tb ->
+  lex_le (yn_line n) (yn_col n) (fst (end_lc p n)) (snd (end_lc p n)) ->
+  1 <= snd (end_lc p n) ->
+  fst (end_lc p n) <= Z.of_nat (length (lines_of text)) ->
+  exists e, node_range p u (new_position_index text) n
+            = Some ({| p_line := yn_line n; p_col := yn_col n; p_byte := tb |}, e)
+    /\ 0 <= tb /\ tb <= p_byte e /\ p_byte e <= slenZ text.
+
+Definition plain_scalar_slice_full (p : pos_params) (u : uniseg) : Prop := forall text pre a value z post tag,
+  lines_of text = pre ++ (a +++ value +++ z) :: post ->
+  complete a = true -> complete value = true ->
+  let line := Z.of_nat (length pre) + 1 in
+  let col := nchars a + 1 in
+  exists b e, node_range p u (new_position_index text) (YNode 8 0 tag value line col false []) = Some (b, e)
+              /\ substr (p_byte b) (p_byte e) text = value
+              /\ 0 <= p_byte b /\ p_byte b <= p_byte e /\ p_byte e <= slenZ text.
+
+Definition scalar_subrange_full (p : pos_params) (u : uniseg) : Prop := forall text pre a v1 v2 v3 z post tag style,
+  let value := v1 +++ v2 +++ v3 in
+  lines_of text = pre ++ (a +++ value +++ z) :: post ->
+  complete a = true -> complete v1 = true -> complete v2 = true -> complete v3 = true ->
+  (style = 0 \/ style = 32)%N ->
+  let line := Z.of_nat (length pre) + 1 in
+  let col := nchars a + 1 in
+  forall rng, node_range p u (new_position_index text) (YNode 8 0 tag value line col false []) = Some rng ->
+  exists b' e',
+    scalar_range p u (YNode 8 style tag value line col false []) rng
+                 (String.length v1) (String.length v1 + String.length v2) = Some (b', e')
+    /\ p_line b' = line /\ p_line e' = line
+    /\ true_byte text line (p_col b') = Some (p_byte b')
+    /\ true_byte text line (p_col e') = Some (p_byte e')
+    /\ substr (p_byte b') (p_byte e') text = v2
+    /\ p_byte b' <= p_byte e' <= slenZ text.
+
+(* ---- proved for EVERY parameter record that has the repairs, and every behaviour of the library ---- *)
+Lemma irregular_before_runes : forall p u text line col, pp_runes p = true -> irregular_before p u text line col = false.
+Proof. intros p u text line col H. unfold irregular_before. destruct (line_at text line); [|reflexivity]. now rewrite H. Qed.
+
+Lemma pos_consistent_full_if : forall p u,
+  line_table_fixed p = true -> pp_runes p = true -> pos_consistent_full p u.
+Proof.
+  intros p u Hl Hr text line col b Hb.
+  apply pos_true_byte; [exact Hb | now apply line_table_fixed_ok | now apply irregular_before_runes].
+Qed.
+
+Lemma range_in_text_full_if : forall p u,
+  line_table_fixed p = true -> pp_runes p = true -> pp_clamp p = true -> range_in_text_full p u.
+Proof.
+  intros p u Hl Hr Hc text n tb Hb Hle Hec Hel.
+  destruct (range_bytes_ordered p u text n tb Hb (line_table_fixed_ok p Hl _)
+              (irregular_before_runes p u _ _ _ Hr) Hle Hec Hel) as (e & Hn & _ & _ & H0 & H1 & H2).
+  exists e. repeat split; auto.
+Qed.
+
+Lemma plain_scalar_slice_full_if : forall p u,
+  line_table_fixed p = true -> pp_runes p = true -> pp_end_chars p = true -> plain_scalar_slice_full p u.
+Proof.
+  intros p u Hlt Hr He text pre a value z post tag Hl Ha Hv line col.
+  destruct (plain_scalar_slice p u text pre a value z post tag Hl Ha Hv (or_introl He)
+              (line_table_fixed_ok p Hlt _ _) (or_introl Hr)) as (Hn & Hs & H0 & H1 & H2 & _).
+  eexists; eexists. split; [exact Hn|]. cbn [p_byte]. repeat split; assumption.
+Qed.
+
+Lemma scalar_subrange_full_if : forall p u,
+  line_table_fixed p = true -> pp_runes p = true -> pp_end_chars p = true -> pp_sr_runes p = true ->
+  scalar_subrange_full p u.
+Proof.
+  intros p u Hlt Hr He Hs text pre a v1 v2 v3 z post tag style value Hl Ha H1 H2 H3 Hst line col rng Hn.
+  exact (scalar_subrange p u text pre a v1 v2 v3 z post tag style Hl Ha H1 H2 H3 (or_introl He) Hst
+           (line_table_fixed_ok p Hlt _ _) (or_introl Hr) (or_introl Hs) rng Hn).
+Qed.
+
+(* ====================================================================================================
+   Refutations: the full statements fail while the source has the defective value.  The library is
+   [uniseg_simple wide]: what rivo/uniseg answers on ASCII plus single-code-point clusters (TAB: width 0;
+   世: width 2); the correspondence replays the same documents against the real library
+   (selftest/witness/C19-zero-width.json, C19-accessor-tab.json). *)
+
+Definition u0 : uniseg := uniseg_simple [].
+Definition wide_char : string := hx "e4b896".                       (* 世 *)
+Definition u_wide : uniseg := uniseg_simple [wide_char].
+
 (* yaml.v3 on "values:\n  é: {a: \"x\ty\", b: c}\n" puts the plain scalar c at line 2, column 20 *)
 Definition tab_text : string := hx "76616c7565733a0a2020c3a93a207b613a202278097922" +++ hx "2c20623a20637d0a".
-Definition bad_pos (p : pos_params) (text : string) (line col : Z) : bool :=
-  match true_byte text line col, pos p (new_position_index text) line col with
+(* yaml.v3 on "values:\n  世: {a: b}\n" puts the key a at line 2, column 7 *)
+Definition wide_text : string := hx "76616c7565733a0a2020e4b8963a207b613a20627d0a".
+
+Definition bad_pos (p : pos_params) (u : uniseg) (text : string) (line col : Z) : bool :=
+  match true_byte text line col, pos p u (new_position_index text) line col with
   | Some b, Some h => negb (p_byte h =? b)
   | Some _, None => true
   | None, _ => false
   end.
 
 Lemma src_pos_consistent_refuted : pp_runes src_params = false ->
-  exists text line col, bad_pos src_params text line col = true.
+  bad_pos src_params u0 tab_text 2 20 = true /\ bad_pos src_params u_wide wide_text 2 7 = true.
+Proof. intro H. revert H. vm_compute. intro H; first [discriminate H | split; reflexivity]. Qed.
+
+Lemma bad_pos_not_full : forall p u text line col, bad_pos p u text line col = true -> ~ pos_consistent_full p u.
 Proof.
-  intro H. exists tab_text, 2, 20. revert H. vm_compute. intro H; first [discriminate H | reflexivity].
+  intros p u text line col Hb F. unfold bad_pos in Hb.
+  destruct (true_byte text line col) as [b|] eqn:E; [|discriminate Hb].
+  rewrite (F text line col b E) in Hb. cbn [p_byte] in Hb. rewrite Z.eqb_refl in Hb. discriminate Hb.
 Qed.
+
+Lemma src_pos_consistent_not_full : pp_runes src_params = false ->
+  ~ pos_consistent_full src_params u0 /\ ~ pos_consistent_full src_params u_wide.
+Proof.
+  intros H. destruct (src_pos_consistent_refuted H) as [A B].
+  split; eapply bad_pos_not_full; eassumption.
+Qed.
+
+(* both witnesses are outside the domain of the partial theorem, and only because of the one irregular cluster *)
+Lemma refuted_witnesses_are_irregular : pp_runes src_params = false ->
+  irregular_before src_params u0 tab_text 2 20 = true
+  /\ irregular_before src_params u_wide wide_text 2 7 = true
+  /\ irregular_before src_params u0 wide_text 2 7 = false.
+Proof. intro H. revert H. vm_compute. intro H; first [discriminate H | repeat split; reflexivity]. Qed.
 
 (* yaml.v3 on "values:\n  some_long_key_name: |\n    a\n": literal scalar "a\n" at line 2, column 23 *)
 Definition literal_text : string := hx "76616c7565733a0a2020736f6d655f6c6f6e675f6b65795f6e616d653a207c0a20202020610a".
 Definition literal_node : ynode := YNode 8 8 "!!str" (hx "610a") 2 23 false [].
-Definition end_outside (p : pos_params) (text : string) (n : ynode) : bool :=
-  match node_range p (new_position_index text) n with
+Definition end_outside (p : pos_params) (u : uniseg) (text : string) (n : ynode) : bool :=
+  match node_range p u (new_position_index text) n with
   | Some (_, e) => slenZ text <? p_byte e
   | None => false
   end.
 
 Lemma src_range_in_text_refuted : pp_clamp src_params = false ->
-  exists text n, end_outside src_params text n = true.
+  forall u, end_outside src_params u literal_text literal_node = true.
+Proof. intros H u. revert H. vm_compute. intro H; first [discriminate H | reflexivity]. Qed.
+
+Lemma src_range_in_text_not_full : pp_clamp src_params = false -> forall u, ~ range_in_text_full src_params u.
 Proof.
-  intro H. exists literal_text, literal_node. revert H. vm_compute. intro H; first [discriminate H | reflexivity].
+  intros H u F. pose proof (src_range_in_text_refuted H u) as B.
+  assert (Hp : lex_le 2 23 (fst (end_lc src_params literal_node)) (snd (end_lc src_params literal_node))
+               /\ 1 <= snd (end_lc src_params literal_node)
+               /\ fst (end_lc src_params literal_node) <= Z.of_nat (length (lines_of literal_text))).
+  { revert H. vm_compute. intro H. first [discriminate H | (split; [left; reflexivity | split; discriminate])]. }
+  destruct Hp as (H1 & H2 & H3).
+  destruct (F literal_text literal_node 30 eq_refl H1 H2 H3) as (e & Hn & _ & _ & Hin).
+  unfold end_outside in B. rewrite Hn in B. lia.
 Qed.
 
-(* the end of that node is reported in a column that its line does not have, whatever the parameters *)
+(* the end of that node is reported in a column that its line does not have, whatever the parameters: the node is
+   in the class [end_missing] the partial theorem excludes *)
 Lemma strict_column_refuted : forall p,
-  past_eol literal_text (fst (end_lc p literal_node)) (snd (end_lc p literal_node)) = true.
-Proof. intros p. destruct p as [lo hi cl ru [|] tg sr]; reflexivity. Qed.
+  past_eol literal_text (fst (end_lc p literal_node)) (snd (end_lc p literal_node)) = true
+  /\ end_missing p literal_text literal_node = true.
+Proof. intros p. destruct p as [lo hi cl ru [|] tg sr]; split; reflexivity. Qed.
 
 (* yaml.v3 on "values:\n  é: {ü: héllo, z: 1}\n": plain scalar héllo at line 2, column 10 *)
 Definition nonascii_text : string := hx "76616c7565733a0a2020c3a93a207bc3bc3a2068c3a96c6c6f2c207a3a20317d0a".
 Definition nonascii_value : string := hx "68c3a96c6c6f".
-Definition bad_slice (p : pos_params) (text : string) (line col : Z) (value : string) : bool :=
+Definition bad_slice (p : pos_params) (u : uniseg) (text : string) (line col : Z) (value : string) : bool :=
   located text line col value
-  && match node_range p (new_position_index text) (YNode 8 0 "!!str" value line col false []) with
+  && match node_range p u (new_position_index text) (YNode 8 0 "!!str" value line col false []) with
      | Some (b, e) => negb (String.eqb (substr (p_byte b) (p_byte e) text) value)
      | None => true
      end.
 
 Lemma src_plain_scalar_slice_refuted : pp_end_chars src_params = false ->
-  exists text line col value, bad_slice src_params text line col value = true.
+  bad_slice src_params u0 nonascii_text 2 10 nonascii_value = true.
+Proof. intro H. revert H. vm_compute. intro H; first [discriminate H | reflexivity]. Qed.
+
+Lemma src_plain_scalar_slice_not_full : pp_end_chars src_params = false -> ~ plain_scalar_slice_full src_params u0.
 Proof.
-  intro H. exists nonascii_text, 2, 10, nonascii_value. revert H. vm_compute.
-  intro H; first [discriminate H | reflexivity].
-Qed.
-
-(* ---- the full statements, their refutation while the defect is in the source, and their proof once it is not ---- *)
-Definition pos_consistent_full (p : pos_params) : Prop := forall text line col b,
-  true_byte text line col = Some b ->
-  pos p (new_position_index text) line col = Some {| p_line := line; p_col := col; p_byte := b |}.
-
-Lemma src_pos_consistent_not_full : pp_runes src_params = false -> ~ pos_consistent_full src_params.
-Proof.
-  intros H F. destruct (src_pos_consistent_refuted H) as (text & line & col & Hb). unfold bad_pos in Hb.
-  destruct (true_byte text line col) as [b|] eqn:E; [|discriminate Hb].
-  rewrite (F text line col b E) in Hb. cbn [p_byte] in Hb. rewrite Z.eqb_refl in Hb. discriminate Hb.
-Qed.
-
-Lemma src_pos_consistent_full_if : pp_runes src_params = true -> pos_consistent_full src_params.
-Proof.
-  intros H text line col b Hb. apply src_pos_consistent; [exact Hb|].
-  unfold zero_width_before. destruct (line_at text line); [|reflexivity]. now rewrite H.
-Qed.
-
-Definition plain_scalar_slice_full (p : pos_params) : Prop := forall text pre a value z post tag anch,
-  lines_of text = pre ++ (a +++ value +++ z) :: post ->
-  complete a = true -> complete value = true ->
-  let line := Z.of_nat (length pre) + 1 in
-  let col := nchars a + 1 in
-  exists b e, node_range p (new_position_index text) (YNode 8 0 tag value line col anch []) = Some (b, e)
-              /\ substr (p_byte b) (p_byte e) text = value
-              /\ 0 <= p_byte b /\ p_byte b <= p_byte e /\ p_byte e <= slenZ text.
-
-Lemma src_plain_scalar_slice_full_if :
-  pp_runes src_params = true -> pp_end_chars src_params = true -> plain_scalar_slice_full src_params.
-Proof.
-  intros Hr He text pre a value z post tag anch Hl Ha Hv line col.
-  destruct (src_plain_scalar_slice text pre a value z post tag anch Hl Ha Hv (or_introl He) (or_introl Hr))
-    as (Hn & Hs & H0 & H1 & H2 & _).
-  eexists; eexists. split; [exact Hn|]. cbn [p_byte]. repeat split; assumption.
-Qed.
-
-Lemma src_plain_scalar_slice_not_full : pp_end_chars src_params = false -> ~ plain_scalar_slice_full src_params.
-Proof.
-  intros H F.
-  assert (B : bad_slice src_params nonascii_text 2 10 nonascii_value = true)
-    by (revert H; vm_compute; intro H; first [discriminate H | reflexivity]).
-  destruct (F nonascii_text ["values:"] (hx "2020c3a93a207bc3bc3a20") nonascii_value ", z: 1}" [""] "!!str" false
+  intros H F. pose proof (src_plain_scalar_slice_refuted H) as B.
+  destruct (F nonascii_text ["values:"] (hx "2020c3a93a207bc3bc3a20") nonascii_value ", z: 1}" [""] "!!str"
               eq_refl eq_refl eq_refl) as (b & e & Hn & Hs & _).
-  assert (E : node_range src_params (new_position_index nonascii_text)
+  assert (E : node_range src_params u0 (new_position_index nonascii_text)
                 (YNode 8 0 "!!str" nonascii_value 2 10 false []) = Some (b, e)) by exact Hn.
   unfold bad_slice in B. rewrite E, Hs, String.eqb_refl in B. cbn [negb] in B.
   now rewrite andb_false_r in B.
 Qed.
 
+(* yaml.v3 on "values:\n  a: 1\n  b: x\t${a}\n": plain scalar "x\t${a}" at line 3, column 6; the accessor a is
+   bytes [4, 5) of it *)
+Definition sr_text : string := hx "76616c7565733a0a2020613a20310a2020623a207809247b617d0a".
+Definition sr_value : string := hx "7809247b617d".
+Definition bad_sub (p : pos_params) (u : uniseg) (text : string) (n : ynode) (st en : nat) : bool :=
+  match node_range p u (new_position_index text) n with
+  | Some rng =>
+      match scalar_range p u n rng st en with
+      | Some (b', _) => match true_byte text (p_line b') (p_col b') with
+                        | Some x => negb (x =? p_byte b')
+                        | None => true
+                        end
+      | None => true
+      end
+  | None => true
+  end.
+
+Lemma src_scalar_subrange_refuted : pp_sr_runes src_params = false ->
+  bad_sub src_params u0 sr_text (YNode 8 0 "!!str" sr_value 3 6 false []) 4 5 = true.
+Proof. intro H. revert H. vm_compute. intro H; first [discriminate H | reflexivity]. Qed.
+
+Lemma src_scalar_subrange_not_full : pp_sr_runes src_params = false -> ~ scalar_subrange_full src_params u0.
+Proof.
+  intros H F. pose proof (src_scalar_subrange_refuted H) as B. unfold bad_sub in B.
+  destruct (node_range src_params u0 (new_position_index sr_text) (YNode 8 0 "!!str" sr_value 3 6 false []))
+    as [rng|] eqn:En.
+  - destruct (F sr_text ["values:"; "  a: 1"] "  b: " (hx "7809247b") "a" "}" "" [""] "!!str" 0%N
+                eq_refl eq_refl eq_refl eq_refl eq_refl (or_introl eq_refl) rng En)
+      as (b' & e' & Hs & Hlb & _ & Htb & _).
+    change (hx "7809247b" +++ "a" +++ "}") with sr_value in Hs.
+    change (String.length (hx "7809247b")) with 4%nat in Hs.
+    change (4 + String.length "a")%nat with 5%nat in Hs.
+    change (Z.of_nat (length ["values:"; "  a: 1"]) + 1) with 3 in Hs, Hlb, Htb.
+    change (nchars "  b: " + 1) with 6 in Hs.
+    rewrite Hs, Hlb, Htb, Z.eqb_refl in B. discriminate B.
+  - revert En. vm_compute. discriminate.
+Qed.
+
+(* ---- anchored scalars: yaml.v3 reports `&x 1` at the `&` (line 2, column 6) with value "1"; the code gives the
+        range the length of the value from there ---- *)
+Definition anchored_text : string := hx "76616c7565733a0a2020663a20267820310a".    (* "values:\n  f: &x 1\n" *)
+Definition anchored_node : ynode := YNode 8 0 "!!int" "1" 2 6 true [].
+
+Lemma anchored_slice_refuted : forall p u, line_table_fixed p = true ->
+  exists b e, node_range p u (new_position_index anchored_text) anchored_node = Some (b, e)
+              /\ substr (p_byte b) (p_byte e) anchored_text = "&"
+              /\ true_byte anchored_text 2 6 = Some (p_byte b)
+              /\ true_byte anchored_text 2 7 = Some (p_byte e).
+Proof.
+  intros p u H. unfold line_table_fixed in H. apply andb_prop in H. destruct H as [H1 H2].
+  destruct p as [lo hi cl ru ec tg sr]. cbn [pp_lo pp_hi_incl] in *. subst hi.
+  unfold node_range, yaml_end_pos, anchored_node. cbn [yn_line yn_col end_lc]. change (is_collection 8) with false.
+  cbv iota. unfold scalar_end_lc. change (0 =? 8)%N with false. change (0 =? 1)%N with false. cbv iota.
+  cbn [pp_end_chars]. assert (Hlen : str_len ec "1" = 1) by (destruct ec; reflexivity). rewrite Hlen.
+  unfold pos. cbn [pp_lo pp_hi_incl pp_clamp].
+  change (Z.of_nat (length (new_position_index anchored_text))) with 3.
+  replace (2 <? lo) with false by lia. cbn [orb]. change (3 <? 2) with false. change (2 <? 1) with false. cbv iota.
+  change (nth_error (new_position_index anchored_text) (Z.to_nat (2 - 1)))
+    with (Some {| l_off := 8; l_ascii := true; l_line := "  f: &x 1" |}).
+  cbn [l_ascii l_off l_line].
+  destruct cl; do 2 eexists; (split; [reflexivity|]); repeat split; reflexivity.
+Qed.
+
 (* ---- non-vacuity on concrete documents ---- *)
 Definition last_line_text : string := hx "76616c7565733a0a20206b3a206c617374".   (* "values:\n  k: last", no final newline *)
 
-Lemma example_last_line :
-  node_range src_params (new_position_index last_line_text) (YNode 8 0 "!!str" "last" 2 6 false [])
+Lemma example_last_line : forall u,
+  node_range src_params u (new_position_index last_line_text) (YNode 8 0 "!!str" "last" 2 6 false [])
   = Some ({| p_line := 2; p_col := 6; p_byte := 13 |}, {| p_line := 2; p_col := 10; p_byte := 17 |})
   /\ substr 13 17 last_line_text = "last"
   /\ lines_of last_line_text = ["values:"] ++ ("  k: " +++ "last" +++ "") :: [].
-Proof. repeat split; reflexivity. Qed.
+Proof. intros u. repeat split; reflexivity. Qed.
 
 (* non-ASCII text before the node on its line: the key z of "values:\n  é: {ü: héllo, z: 1}\n" *)
 Lemma example_nonascii_before :
-  node_range src_params (new_position_index nonascii_text) (YNode 8 0 "!!str" "z" 2 17 false [])
+  node_range src_params u0 (new_position_index nonascii_text) (YNode 8 0 "!!str" "z" 2 17 false [])
   = Some ({| p_line := 2; p_col := 17; p_byte := 27 |}, {| p_line := 2; p_col := 18; p_byte := 28 |})
   /\ substr 27 28 nonascii_text = "z"
   /\ located nonascii_text 2 17 "z" = true
-  /\ zero_width_before src_params nonascii_text 2 18 = false.
+  /\ irregular_before src_params u0 nonascii_text 2 18 = false.
 Proof. repeat split; reflexivity. Qed.
 
 (* a mapping: its range runs from its first key to the end of its last value *)
 Lemma example_collection :
   let n := YNode 4 32 "!!map" "" 2 6 false [YNode 8 0 "!!int" "1" 2 20 false []] in
-  node_range src_params (new_position_index nonascii_text) n
+  node_range src_params u0 (new_position_index nonascii_text) n
   = Some ({| p_line := 2; p_col := 6; p_byte := 14 |}, {| p_line := 2; p_col := 21; p_byte := 31 |})
   /\ ordered n.
 Proof. split; [reflexivity | cbn; unfold lex_le; intros _; split; [lia | discriminate]]. Qed.
+
+(* the all-nodes theorem is not vacuous on the node the partial theorem excludes: the block scalar *)
+Lemma example_block_scalar_ordered : forall u,
+  end_missing src_params literal_text literal_node = true
+  /\ exists e, node_range src_params u (new_position_index literal_text) literal_node
+               = Some ({| p_line := 2; p_col := 23; p_byte := 30 |}, e) /\ 30 <= p_byte e.
+Proof.
+  intros u. split; [apply strict_column_refuted|].
+  assert (Hp : lex_le 2 23 (fst (end_lc src_params literal_node)) (snd (end_lc src_params literal_node))
+               /\ 1 <= snd (end_lc src_params literal_node)
+               /\ fst (end_lc src_params literal_node) <= Z.of_nat (length (lines_of literal_text))).
+  { vm_compute. split; [left; reflexivity | split; discriminate]. }
+  destruct Hp as (H1 & H2 & H3).
+  destruct (src_range_bytes_ordered u literal_text literal_node 30 eq_refl eq_refl H1 H2 H3)
+    as (e & Hn & _ & _ & _ & Hle).
+  exists e. split; [exact Hn | exact Hle].
+Qed.
+
+(* a record with every repair exists and satisfies the premises of the `_full_if` lemmas *)
+Definition repaired_params : pos_params :=
+  {| pp_lo := 1; pp_hi_incl := true; pp_clamp := true; pp_runes := true; pp_end_chars := true; pp_tag_chars := true;
+     pp_sr_runes := true |}.
+
+Lemma example_repaired_record :
+  line_table_fixed repaired_params = true /\ pp_runes repaired_params = true /\ pp_clamp repaired_params = true
+  /\ pp_end_chars repaired_params = true /\ pp_sr_runes repaired_params = true
+  /\ forall u, pos_consistent_full repaired_params u /\ range_in_text_full repaired_params u
+               /\ plain_scalar_slice_full repaired_params u /\ scalar_subrange_full repaired_params u.
+Proof.
+  repeat split; try reflexivity.
+  - now apply pos_consistent_full_if.
+  - now apply range_in_text_full_if.
+  - now apply plain_scalar_slice_full_if.
+  - now apply scalar_subrange_full_if.
+Qed.
